@@ -231,7 +231,7 @@ func c03Provenance(c *Ctx) {
 		note := func(s string) {
 			s = strings.ReplaceAll(s, "[@]", "")
 			for _, part := range strings.FieldsFunc(s, func(r rune) bool { return strings.ContainsRune("()+-*,[] ", r) }) {
-				if part == "" || part == "len" || part == "choice" || part == "Σlen" || part == "pre·len" || part == "idx" || part == "@" {
+				if part == "" || part == "len" || part == "choice" || part == "if" || part == "Σlen" || part == "pre·len" || part == "idx" || part == "@" {
 					continue
 				}
 				if _, err := fmt.Sscanf(part, "%d", new(int64)); err == nil {
